@@ -474,6 +474,7 @@ void runHugeCase(uint64_t c, size_t n, const char *tname) {
 
 int main(int argc, char **argv) {
     rt::init(argc, argv);
+    rt::cpuBudgetPerCase(240);   // single-threaded, deterministic: a case that burns 240 s of CPU time does not terminate
     LifeRegistry::get().prop = "C14";
     LifeRegistry::get().context = histTail;
     std::string types = rt::optStr("types", "int,double,byte,pod24,tracked,tracked,tracked-throwing-move,string");
